@@ -161,6 +161,7 @@ func genPlanC01(t *rapid.T) Plan {
 			p.Ops = append(p.Ops, Op{K: "connect", C: rapid.IntRange(0, p.NClients-1).Draw(t, "cc"), Clean: true})
 		case k == 17 && p.NInproc > 0:
 			op := Op{K: "isub", C: rapid.IntRange(0, p.NInproc-1).Draw(t, "ic"), Filters: []string{genFilter(t)}, QoS: []byte{byte(rapid.IntRange(0, 2).Draw(t, "iq"))}}
+			op.Refuse = rapid.IntRange(0, 7).Draw(t, "irefuse") == 0
 			subs = append(subs, Op{K: "isubref", C: -1 - op.C, Filters: op.Filters})
 			p.Ops = append(p.Ops, op)
 		case k == 18 && p.NInproc > 0:
@@ -178,6 +179,7 @@ func genPlanC01(t *rapid.T) Plan {
 		}
 	}
 	p.Seg, p.Reset = genSeg(t)
+	p.InprocErr = p.NInproc > 0 && rapid.IntRange(0, 3).Draw(t, "inprocerr") == 0
 	return p
 }
 
@@ -270,6 +272,7 @@ func genPlanC07(t *rapid.T) Plan {
 		}
 	}
 	p.Seg, p.Reset = genSeg(t)
+	p.InprocErr = p.NInproc > 0 && rapid.IntRange(0, 3).Draw(t, "inprocerr") == 0
 	return p
 }
 
@@ -317,12 +320,13 @@ func genPlanC08(t *rapid.T) Plan {
 		case k == 16:
 			p.Ops = append(p.Ops, Op{K: "connect", C: rapid.IntRange(0, p.NClients-1).Draw(t, "cc"), Clean: true})
 		case k == 17 && p.NInproc > 0:
-			p.Ops = append(p.Ops, Op{K: "isub", C: 0, Filters: []string{rapid.SampledFrom([]string{"#", "a/#", "a", "a/b", "+/b"}).Draw(t, "if")}, QoS: []byte{byte(rapid.IntRange(0, 2).Draw(t, "iq"))}})
+			p.Ops = append(p.Ops, Op{K: "isub", C: 0, Filters: []string{rapid.SampledFrom([]string{"#", "a/#", "a", "a/b", "+/b"}).Draw(t, "if")}, QoS: []byte{byte(rapid.IntRange(0, 2).Draw(t, "iq"))}, Refuse: rapid.IntRange(0, 2).Draw(t, "irefuse") == 0})
 		default:
 			p.Ops = append(p.Ops, Op{K: "unsub", C: rapid.IntRange(0, p.NClients-1).Draw(t, "uc"), Filters: []string{rapid.SampledFrom([]string{"#", "a/#", "a", "a/b"}).Draw(t, "uf")}})
 		}
 	}
 	p.Seg, p.Reset = genSeg(t)
+	p.InprocErr = p.NInproc > 0 && rapid.IntRange(0, 3).Draw(t, "inprocerr") == 0
 	return p
 }
 
@@ -380,6 +384,7 @@ func genPlanC10(t *rapid.T) Plan {
 		}
 	}
 	p.Seg, p.Reset = genSeg(t)
+	p.InprocErr = p.NInproc > 0 && rapid.IntRange(0, 3).Draw(t, "inprocerr") == 0
 	return p
 }
 
@@ -442,6 +447,7 @@ func genPlanC09(t *rapid.T) Plan {
 		}
 	}
 	p.Seg, p.Reset = genSeg(t)
+	p.InprocErr = p.NInproc > 0 && rapid.IntRange(0, 3).Draw(t, "inprocerr") == 0
 	return p
 }
 
